@@ -224,6 +224,11 @@ def instantiate_plain(ad, did):
             d["gen_use"] = "<i32>"
         elif d["ty"] == "Point":
             d["inner"] = "Point"
+        elif d["ty"] == "Gen<Point>":
+            d["inner"] = "T"
+            d["inner_use"] = "Point"
+            d["gen_decl"] = "<T>"
+            d["gen_use"] = "<Point>"
         elif d["ty"] == "Cow<[i32]>":
             # a lifetime-generic newtype: Nt<'a>(Cow<'a, [i32]>) used at 'static
             d["inner"] = "::std::borrow::Cow<'a, [i32]>"
@@ -269,7 +274,7 @@ def string_inputs(d, rng, nrandom):
 
 
 def any_inputs(d, rng, nrandom):
-    if d.get("ty") == "Point":
+    if d.get("ty") in ("Point", "Gen<Point>"):
         vals = {(a, b) for a in (1, 2, 3) for b in (1, 2, 3)}
         vals |= {(0, 0), (-1, 1), (1, -1), (2**31 - 1, -2**31), (-2**31, 2**31 - 1), (7, 7)}
         for _ in range(nrandom):
